@@ -550,6 +550,55 @@ def sim_inputs(ctx: Ctx, rule: str) -> None:
            facts={k: repr(v) for k, v in inp.items()} if isinstance(inp, dict) else repr(inp))
 
 
+def _r132_read_input(ctx: Ctx) -> None:
+    """read_input_dict(spec, out) returns a batch that holds exactly the simulations get_simulations(spec) builds, in
+    order, for every form of specification - and does not raise on any of them (labels of nested ranges included)."""
+    m = ctx.model
+    bmod = 'panqec.simulation._batch_simulation'
+    mi, fn = m.func(bmod, 'read_input_dict')
+    site = site_of(mi, fn)
+    rng, _ = _spec('dict-params')
+    forms = {
+        'ranges dict': {'ranges': rng},
+        'ranges list': {'ranges': [rng, dict(rng, label='M')]},
+        'ranges list, nested form with one label': {'ranges': [{'ranges': dict(rng, label='L')}, {'ranges': dict(rng, label='L')}]},
+        'ranges list, nested form with two labels': {'ranges': [{'ranges': dict(rng, label='L')}, {'ranges': dict(rng, label='M')}]},
+        'runs': {'runs': [{'code': {'name': 'Toric2DCode', 'parameters': {'L_x': 3}},
+                           'error_model': {'name': 'PauliErrorModel', 'parameters': {'r_x': 0.1}},
+                           'decoder': {'name': 'MatchingDecoder', 'parameters': {}}, 'error_rate': 0.1}]},
+    }
+
+    class H(_HSim):
+        def call(self, it, func, args, kwargs, node, env):
+            if isinstance(func, ClassRef) and func.ci.name == 'BatchSimulation':
+                o = Obj(func.ci, 'batch')
+                o.fields['_ctor'] = ('BatchSimulation', list(args), dict(kwargs))
+                o.fields['_simulations'] = []
+                return o
+            if isinstance(func, Closure) and getattr(func.fn, 'name', '') == 'get_simulations':
+                sims = [Obj(None, f'sim{i}') for i in range(3)]
+                self.sims = sims
+                return list(sims)
+            if isinstance(func, Ext) and func.name == 'builtins.print':
+                return None
+            return super().call(it, func, args, kwargs, node, env)
+    for label, data in forms.items():
+        hooks = H()
+        it = Interp(m, hooks)
+        outs = guard('R13.2', mi, fn)(lambda: it.explore(lambda: it.call_closure(Closure(fn, mi), [data, 'out.json'], {}, fn)))
+        bad = None
+        if not outs or any(o.kind != 'return' for o in outs):
+            bad = f'raises / does not return: {[o for o in outs if o.kind != "return"][:1]!r}'
+        else:
+            for o in outs:
+                b = o.value
+                got = b.fields.get('_simulations') if isinstance(b, Obj) else None
+                if not (isinstance(got, list) and len(got) == 3 and all(x is y for x, y in zip(got, hooks.sims))):
+                    bad = f'the batch holds {got!r}; get_simulations built {getattr(hooks, "sims", None)!r}'
+        ctx.ob('R13.2', site, f'read_input_dict ({label}): the batch holds exactly the simulations of get_simulations, in order',
+               bad is None, bad or '', key=f'read_input_dict|{label}')
+
+
 def run(ctx: Ctx) -> None:
     ctx.rule('R13.1', 'registry key = class name; register_* derive the key from the class\'s own name', floor=50)
     ctx.rule('R13.2', 'expansion = Cartesian product, each element once, objects built from their own parameters', floor=7)
@@ -561,6 +610,8 @@ def run(ctx: Ctx) -> None:
         _r132(ctx)
     with ctx.part():
         _r132_splitting(ctx)
+    with ctx.part():
+        _r132_read_input(ctx)
     with ctx.part():
         from .c06 import global_state_rule
         bmod = 'panqec.simulation._batch_simulation'
